@@ -203,6 +203,8 @@ pub struct ChainOpts {
     pub max_grade: f64,
     pub gates: bool,
     pub multi_type: bool,
+    /// weights of (short, medium, long) link lengths
+    pub len_weights: [u32; 3],
 }
 
 impl Default for ChainOpts {
@@ -216,6 +218,7 @@ impl Default for ChainOpts {
             max_grade: 0.02,
             gates: true,
             multi_type: true,
+            len_weights: [3, 4, 2],
         }
     }
 }
@@ -239,7 +242,7 @@ pub fn gen_train_params(g: &mut Gen) -> TrainParamSpec {
 }
 
 fn gen_length(g: &mut Gen, o: &ChainOpts) -> f64 {
-    let v = match g.weighted(&[3, 4, 2]) {
+    let v = match g.weighted(&o.len_weights) {
         0 => g.int(o.min_len as i64, (o.min_len * 4.0).min(o.max_len) as i64) as f64,
         1 => g.int(200.min(o.max_len as i64), 3000.min(o.max_len as i64)) as f64,
         _ => g.int(3000.min(o.max_len as i64), o.max_len as i64) as f64,
